@@ -301,6 +301,8 @@ class SQLiteTrigger(BaseTrigger):
         expected_last_execution: datetime | None = None,
     ) -> bool:
         with sqlite_conn(self.sqlite_db_path) as conn:
+            # write lock first: the read, the comparison and the update are one transaction
+            conn.execute("BEGIN IMMEDIATE")
             cursor = conn.execute(
                 f"SELECT last_cron_execution FROM {self.tables.CONDITIONS} WHERE condition_id = ?",
                 (condition_id,),
@@ -378,6 +380,8 @@ class SQLiteTrigger(BaseTrigger):
         now = datetime.now(UTC)
         expiration = now + timedelta(seconds=expiration_seconds)
         with sqlite_conn(self.sqlite_db_path) as conn:
+            # write lock first: the read, the expiry test and the insert are one transaction
+            conn.execute("BEGIN IMMEDIATE")
             cursor = conn.execute(
                 f"SELECT expiration FROM {self.tables.TRIGGER_RUN_CLAIMS} WHERE trigger_run_id = ?",
                 (trigger_run_id,),
